@@ -10,7 +10,8 @@ LEVEL = "exploration"
 RULE = (
     "The C03 case strategy (cube x aggregate x fact form x weight form); every case is evaluated under BOTH "
     "missing-value policies and ALL THREE report formats (NaN in place, (sentinel, False) with a drawn sentinel "
-    "in {0, -1, 99.5}, plain 0) on BOTH cube types = 12 library calls per case, each on fresh copies of the fact / weight arguments or (two cases in three) all on the "
+    "in {0, -1, 99.5}, plain 0) on BOTH cube types = 12 library calls per case (the index cube through its methods or, one case in four, through explicit function objects "
+    "built with tracing=False), each on fresh copies of the fact / weight arguments or (two cases in three) all on the "
     "same objects. Oracle (a): the set of missing cells "
     "of the NaN and pair formats equals the brute-force rule (no rows; all / any rows invalid in fact or weight; "
     "for a mean also valid weights summing to zero). Oracle (b): NaN-format missing set == ~validity of the pair "
@@ -194,7 +195,7 @@ def check(case, rec):
                         cube, used = Q.make_xcube(case, dense, case["xdtypes"], case["xexplicit"])
                         if tuple(used) != tuple(full):
                             ev, em, _ = Q.crop_to(exp_v, exp_m, ns, used, full)
-                    res = Q.call_agg(cube, agg, farg, warg, ignore, rma, N=Narg)
+                    res = Q.call_agg(cube, agg, farg, warg, ignore, rma, N=Narg, via=case.get("via"))
                 gv, gm = Q.normalise(res, rma, what)
                 gv, gm = c03.fix0d(gv, gm, ev)
                 if gv.shape != ev.shape:
